@@ -315,7 +315,7 @@ def check(name, sk, d, slot, v, exempt, args):
 @harness(
     prop="C04",
     cubes={"sk": range(NSK), "d": range(ND)},
-    bounds={"quick": {"L": 2}, "thorough": {"L": 3}},
+    bounds={"quick": {"L": 2}, "thorough": {"L": 4}},
     timeout={"quick": 120, "thorough": 900},
     witness=[dict(sk=0, d=2, slot=0, s="x'"), dict(sk=2, d=2, slot=1, s="ab"), dict(sk=4, d=1, slot=3, s="*"),
              dict(sk=7, d=2, slot=1, s="q")],
@@ -398,7 +398,7 @@ def build_short(sk, d, v):
 @harness(
     prop="C04",
     cubes={"sk": range(NSHORT), "d": range(ND)},
-    bounds={"quick": {"L": 2}, "thorough": {"L": 3}},
+    bounds={"quick": {"L": 2}, "thorough": {"L": 4}},
     timeout={"quick": 200, "thorough": 1200},
     witness=[dict(sk=0, d=2, s="x'"), dict(sk=6, d=2, s="q"), dict(sk=7, d=1, s="*")],
     doc="placeholder substitution reproduces the inline SQL for a symbolic string value (len<=L) on 8 short statements "
